@@ -163,7 +163,7 @@ Hypothesis R_ok_dl : forall m, R m -> Forall okmsg (c_dl m ++ md_wbuf (sd m)).
 Hypothesis R_head_dl : forall m, R m -> Forall (dmsg ds) (c_dl m).
 Hypothesis R_send_l : forall m, R m -> lph_ok ds (ml_ph (sl m)).
 Hypothesis R_guard_l : forall m q, R m -> md_ph (sd m) = MDDone (Some q) ->
-  ml_ph (sl m) <> MLRecvHeader /\ ml_ph (sl m) <> MLRecvMsg.
+  (ml_ph (sl m) = MLRecvHeader \/ ml_ph (sl m) = MLRecvMsg) -> c_dl m <> [].
 
 Lemma d_task_sim_gen : forall fuel t pin pout m svd rvd svl rvl t' pin' pout',
   R m -> DTask t m svd rvd -> SLinkL svl m ->
@@ -299,7 +299,8 @@ Proof.
   - intros m H. exact (ok_dl ds ls Hwf m H).
   - intros m H. destruct (NM_reach ds ls m H) as (H1 & _). exact H1.
   - intros m H. destruct (NM_reach ds ls m H) as (_ & _ & _ & _ & _ & _ & H7). exact H7.
-  - intros m q HR Hq. exact (done_dialer_no_read ds ls m q wfd_ds HR Hq).
+  - intros m q HR Hq Hph. destruct (done_dialer_no_read ds ls m q wfd_ds HR Hq) as [N1 N2].
+    exfalso. destruct Hph; contradiction.
 Qed.
 
 (* ------------------------------------------------------------------ the system *)
